@@ -112,6 +112,7 @@ func (m *Module) Error(id, title, msg string) {
 
 func (m *Module) setFailure(status uint8, id, title, msg string, lockModule bool) {
 	var resolveFailureID string
+	var ignored bool
 	func() {
 		if lockModule {
 			m.Lock()
@@ -120,6 +121,7 @@ func (m *Module) setFailure(status uint8, id, title, msg string, lockModule bool
 
 		// Ignore calls with the same ID.
 		if id == m.failureID {
+			ignored = true
 			return
 		}
 
@@ -132,6 +134,11 @@ func (m *Module) setFailure(status uint8, id, title, msg string, lockModule bool
 		m.failureTitle = title
 		m.failureMsg = msg
 	}()
+
+	// An ignored call changes nothing: there is nothing to announce.
+	if ignored {
+		return
+	}
 
 	// Notify of module change.
 	m.notifyOfChange()
